@@ -125,6 +125,12 @@ def _caller_excludes_empty(prog, fi, desc):
 
     callers = [(f, c) for f in prog.functions.values() if f is not fi and related(f) for c in calls(f.node, last=fi.name)]
     if not callers:
+        # never called by name, but handed around as a value (a dispatch table of bound methods): who calls it, and
+        # under which test, cannot be read off the call sites
+        refs = [f for f in prog.functions.values() if f is not fi and related(f) for n in ast.walk(f.node)
+                if isinstance(n, ast.Attribute) and n.attr == fi.name and isinstance(n.ctx, ast.Load)]
+        if refs:
+            raise AnalysisError("T1: %s is reached through a reference held in %s, not through a call: the tests that dominate its execution cannot be decided" % (fi.qualname, refs[0].qualname))
         return None
     reasons = []
     for f, c in callers:
